@@ -16,6 +16,10 @@ def obligations(tier):
                     replace=["instantiate:st_instantiate", "reseed:st_reseed", "generate:st_generate"], timeout=to, replay="model",
                     claim="crypto_entropy_read: instantiate on first use; requests served as consecutive generate calls of <= 65536 bytes covering the buffer; reseed exactly when the counter exceeds 256; first entropy failure => -1 and nothing generated after it; never generates unseeded or past the interval",
                     bounds="buflen <= 5*65536+7 (symbolic), reseed_counter in [1,257], instantiated in {0,1}", stubs=["instantiate/reseed/generate -> logging stubs (their bodies are the other obligations)"]))
+    for bl in ([0, 1, 32, 48] if not T else [0, 1, 2, 32, 48, 64]):
+        obs.append(dict(name="os-entropy-read-len%d" % bl, harness="osent.c", entry="h_osent", defs=["BL=%d" % bl, "MAXREADS=%d" % (6 if T else 4)], cpu=[], unwind=10, timeout=to, flags=["--memory-leak-check"],
+                        claim="util/entropy.c entropy_read(%d bytes) over a scripted kernel (open may fail; every read returns -1, 0 or any k in [1, n]; close may be interrupted or fail): success iff opened, every read progressed until full, close succeeded; on success the buffer holds exactly the device's next %d bytes; reads ask for exactly the remaining space; descriptor closed on every path, never used afterwards; no leak" % (bl, bl),
+                        bounds="buflen %d; the device delivers it in at most %d reads (every split); up to 2 EINTR on close" % (bl, 6 if T else 4), stubs=["open/read/close -> scripted kernel over a ghost device stream", "warn -> empty"]))
     return obs
 TRUSTED = ["CBMC 6.11 C semantics", "cadical", "C01 for HMAC-SHA256 itself"]
 ASSUMPTIONS = ["build without CPUSUPPORT_X86_RDRAND (extra hardware input is not part of the SP 800-90A model, as the property states)"]
